@@ -98,65 +98,174 @@ def _element_calls(ctx, fn, getter_suffix, callee_name):
     return coll_loops, hits
 
 
+class _Elem:
+    pass
+
+
 def _transform_rule(ctx, out, qname, getter, elem_cls_mod, name):
+    """abstract run (W) of a transformation method on an object whose parts are recording stand-ins: every part must
+    receive exactly one call of the same-named method with the caller's arguments, and the object itself is returned.
+    Decided on the recorded calls, so loops, comprehensions and helpers are all accepted."""
+    from fractions import Fraction as Fr
+    from verifkit.absrun import Obj, Runner, StandIn
+    from verifkit.finite import Raised, Undecided
+    from rules.C16 import PV, point2d
     fn = ctx.fn(qname)
-    inf = ctx.typer.of(fn)
-    coll_loops, hits = _element_calls(ctx, fn, getter, name)
-    if not coll_loops:
-        out.bad(qname, f"does not visit self.{getter}", where=fn.where())
-        return
-    if len(hits) == 0:
-        out.bad(qname, f"no call of .{name}() on the elements of self.{getter}", where=fn.where())
-        return
-    if len(hits) > 1:
-        out.bad(qname, f"elements of self.{getter} are transformed {len(hits)} times", where=fn.where())
-        return
-    lp, call = hits[0]
-    if pat.has_early_exit(lp) or not any(call is s or call is getattr(s, "value", None)
-                                         for s in pat.unconditional_stmts(lp)):
-        out.bad(qname, f"the call {U(call)} is not made for every element of self.{getter} (conditional / early exit)",
-                where=fn.where(call))
-        return
-    # the callee is the same-named method one layer down
-    tg = pat.call_targets(inf, call)
-    if not tg:
-        # receiver not typed (e.g. a lambda parameter): resolve through the element type of the collection
-        from verifkit.model import elem as elem_type
-        et = elem_type(inf.typeof(lp.iter))
-        for c in ctx.typer.classes_of(et):
-            tg += [f.qname for f in ctx.model.lookup(c, call.func.attr)]
-    if not tg or not all(t.endswith("." + name) for t in tg):
-        out.bad(qname, f"elements are transformed by {tg} instead of the same-named method", where=fn.where(call))
-        return
-    # argument forwarding: every own parameter reaches the callee, in order
-    own = fn.params[1:]
-    defs = pat.local_defs(fn)
-    got = []
-    scaled = (name == "rotate")      # the angle may go through the degrees conversion (checked by R09.4)
-    for a in call.args:
-        got.append(pat.param_origin(fn, a, defs, scaled_ok=scaled))
-    for k in call.keywords:
-        got.append(pat.param_origin(fn, k.value, defs, scaled_ok=scaled))
-    if name == "rotate":
-        need = own[:1] if getter == "vertices" else own
+
+    class Elem(StandIn):
+        def __init__(self, label):
+            self.label, self.calls = label, []
+
+        def _rec(self, meth, *a, **k):
+            self.calls.append((meth, a, tuple(sorted(k.items()))))
+            return self
+
+        def move(self, *a, **k):
+            return self._rec("move", *a, **k)
+
+        def scale(self, *a, **k):
+            return self._rec("scale", *a, **k)
+
+        def rotate(self, *a, **k):
+            return self._rec("rotate", *a, **k)
+
+        def __repr__(self):
+            return self.label
+
+    def flat(v):
+        if isinstance(v, PV):
+            return (v.x, v.y)
+        if isinstance(v, (tuple, list)):
+            r = ()
+            for x in v:
+                r += flat(x)
+            return r
+        return (v,)
+
+    def close(a, b):
+        try:
+            return abs(float(a) - float(b)) <= 1e-12 * max(1.0, abs(float(b)))
+        except (TypeError, ValueError):
+            return a == b
+
+    class MutNum(StandIn):
+        """numpy 0-d array: a number that is updated in place by `*=` (visible through every alias)"""
+
+        def __init__(self, v):
+            self.v, self.ndim, self.shape = float(v), 0, ()
+
+        def __float__(self):
+            return self.v
+
+        def __imul__(self, o):
+            self.v *= float(o)
+            return self
+
+        def __mul__(self, o):
+            return self.v * float(o)
+
+        __rmul__ = __mul__
+
+        def __repr__(self):
+            return f"array({self.v})"
+
+    jcalls = []
+
+    def hook(rn, ev, call, cname, recv, args, kwargs):
+        if cname == "Point2D":
+            return point2d(*args)
+        if cname == "isinstance":
+            return True
+        if cname == "float" and args and isinstance(args[0], Obj) and hasattr(args[0], "area"):
+            return args[0].area
+        # a boundary curve of the stand-in shape: its transformation is the repository's own JordanCurve method
+        if cname in NAMES and isinstance(recv, Obj) and getattr(recv, "is_curve", False):
+            jcalls.append((recv, cname))
+            jf = ctx.fn(f"jordancurve.JordanCurve.{cname}")
+            rn.call_fn(jf, [recv] + list(args), kwargs)
+            return recv
+        return NotImplemented
+    ext = {"np.asarray": lambda x, dtype=None: MutNum(x), "np.array": lambda x, dtype=None: MutNum(x),
+           "np.float64": float, "math.radians": math.radians, "np.radians": lambda x: float(x) * math.pi / 180,
+           "np.deg2rad": lambda x: float(x) * math.pi / 180}
+    if name == "move":
+        cases = [((Fr(3), Fr(-4)), {}, lambda a, k: flat(a) == (Fr(3), Fr(-4)) and not k)]
+    elif name == "scale":
+        cases = [((Fr(2), Fr(5)), {}, lambda a, k: flat(a) + tuple(v for _, v in k) == (Fr(2), Fr(5))
+                  and [n for n, _ in k] in ([], ["yscale"], ["xscale", "yscale"]))]
     else:
-        need = own
-    if got[:len(need)] != list(need):
-        out.bad(qname, f"arguments not forwarded unchanged/in order: callee receives {got}, parameters are {need}",
-                where=fn.where(call))
-        return
-    # other loops must not transform coordinates as well (each distinct point exactly once)
-    O = ownership(ctx)
-    extra = [e for e in O.events.get(qname, []) if e["field"] in ("_x", "_y") and e["node"] is not call]
-    if extra:
-        out.bad(qname, "coordinates are written at a second site (each control point must move exactly once)",
-                where=fn.where(extra[0]["node"]))
-        return
-    rets = [n for n in ast.walk(fn.node) if isinstance(n, ast.Return)]
-    if not rets or not all(pat.is_name(r.value, fn.params[0]) for r in rets):
-        out.bad(qname, "does not return the same object", where=fn.where())
-        return
-    out.ok(qname, f"calls {tg[0]} once for every element of self.{getter} with {need}; returns self", where=fn.where(call))
+        def rot_ok(angle, degrees):
+            def chk(a, k):
+                kd = dict(k)
+                ang = a[0] if a else kd.get("angle")
+                deg = a[1] if len(a) > 1 else kd.get("degrees", False)
+                if ang is None:
+                    return False
+                want = float(angle) * math.pi / 180 if (degrees and not deg) else float(angle)
+                if deg:
+                    return False            # points rotate by radians only
+                return close(ang, want) and (bool(deg) == bool(degrees) or (degrees and not deg))
+            return chk
+        cases = [((0.75,), {}, rot_ok(0.75, False)), ((0.75, False), {}, rot_ok(0.75, False)),
+                 ((30.0, True), {}, rot_ok(30.0, True)), ((30.0,), {"degrees": True}, rot_ok(30.0, True))]
+    for args, kwargs, good in cases:
+        def curve(label, area):
+            vs = [Elem(f"{label}v{i}") for i in range(3)]
+            segs = tuple(Obj(f"{label}s{i}", ctrlpoints=(vs[i], vs[(i + 1) % 3])) for i in range(3))
+            return Obj(label, vertices=tuple(vs), segments=segs, area=area, is_curve=True), vs
+        del jcalls[:]
+        if getter == "vertices":
+            S, parts = curve("J", 4.0)
+            curves = []
+        else:
+            # a region with two holes: the boundary curves are stand-ins whose own move/scale/rotate is the
+            # repository's JordanCurve method, so the decision is taken on what happens to the control points
+            made = [curve(f"j{i}", a) for i, a in enumerate((9.0, -1.0, -2.0))]
+            curves = [c for c, _ in made]
+            parts = [v for _, vs in made for v in vs]
+            S = Obj("S", jordans=tuple(curves), subshapes=())
+        try:
+            got = Runner(ctx, set(), hook, ext=ext).call_fn(fn, [S] + list(args), dict(kwargs))
+        except (Undecided, Raised) as ex:
+            out.undecided(qname, f"{name}{args}: {ex}", where=fn.where())
+            return
+        counts = [len(e.calls) for e in parts]
+        label = f"{name}{args}{kwargs or ''}"
+        if curves:
+            per_curve = [sum(1 for c, _ in jcalls if c is cv) for cv in curves]
+            if any(n == 0 for n in per_curve) and any(per_curve):
+                out.bad(qname, f"the call of .{name}() is not made for every element of self.{getter} (conditional / "
+                               f"early exit)", where=fn.where(), detail=f"{label}: calls per boundary curve {per_curve}")
+                return
+            if any(m != name for _, m in jcalls):
+                out.bad(qname, f"elements are transformed by {sorted({m for _, m in jcalls})} instead of the same-named "
+                               f"method", where=fn.where())
+                return
+        if not any(counts):
+            out.bad(qname, f"does not visit self.{getter}", where=fn.where(), detail=label)
+            return
+        if any(c == 0 for c in counts):
+            out.bad(qname, f"the call of .{name}() is not made for every element of self.{getter} (conditional / early exit)",
+                    where=fn.where(), detail=f"{label}: calls per element {counts}")
+            return
+        if any(c > 1 for c in counts):
+            out.bad(qname, f"elements of self.{getter} are transformed {max(counts)} times", where=fn.where(),
+                    detail=f"{label}: calls per element {counts}")
+            return
+        for e in parts:
+            meth, a, k = e.calls[0]
+            if meth != name:
+                out.bad(qname, f"elements are transformed by {meth} instead of the same-named method", where=fn.where())
+                return
+            if not good(a, k):
+                out.bad(qname, f"arguments not forwarded unchanged/in order: callee receives {a} {dict(k) or ''}",
+                        where=fn.where(), detail=f"{label}")
+                return
+        if got is not S:
+            out.bad(qname, "does not return the same object", where=fn.where())
+            return
+    out.ok(qname, f"calls .{name}() exactly once on every element of self.{getter} with the caller's arguments; returns self",
+           where=fn.where())
 
 
 def r09_2(ctx):
